@@ -4,7 +4,7 @@ import kv
 
 ID = "C01"
 MODULE = "C01"
-IMPORTS = "Bytes PathSan PathSanProofs"
+IMPORTS = "Bytes PathSan PathSanProofs PathSanPipe PathSanPipeProofs"
 PROFILES = ("dev",)
 INSIDE = ("exists names : list bytes, names <> [] /\\ Forall (fun s => proper_name s = true) names /\\ "
           "descend (fst P) names = Some (File c)")
@@ -42,6 +42,16 @@ THEOREMS = [
      "decoded_for_check p = d /\\ util_percent_decode p = d /\\ d = percent_decode p"),
     ("accepted_path_never_panics",
      "forall host public p : bytes, sanitize_path p = Ok tt -> request_fs_path host public p <> Panic"),
+    ("history_bodies_confined",
+     "forall (c : pcfg) (root cwd P : pos) (ops : list op), benign_host (pc_host c) -> wf_pos root -> wf_pos cwd -> "
+     "pc_fs c = read_path root cwd -> resolve_path root cwd (h_path (pc_host c) ++ [c_slash] ++ h_public (pc_host c)) = Some P -> "
+     "Forall (answer_ok c P) (run_history c [] ops)"),
+    ("unsafe_request_is_400_in_every_state",
+     "forall (c : pcfg) (cache : cache_t) (m t : bytes) (k : N) (p : bytes), starts_with [c_slash] t = true -> uri_path t = Some p -> "
+     "unsafe (percent_decode p) -> step_request c cache m t k = (XL [XN 400; XB errpage; XL []], cache)"),
+    ("internal_routes_need_override",
+     "forall (c : pcfg) (cache : cache_t) (m t : bytes) (k : N), benign_host (pc_host c) -> override_of (pc_default_ext c) m k = None -> "
+     "step_request (strip_internal c) cache m t k = step_request c cache m t k"),
 ]
 RULE = ("(a) direct calls of kvarn_utils::parse::sanitize_request (on an http::Request built from the target), kvarn_utils::percent_decode, "
         "kvarn_utils::make_path and the path construction of get_response against the Coq model (correspondence) and against the "
@@ -50,25 +60,55 @@ RULE = ("(a) direct calls of kvarn_utils::parse::sanitize_request (on an http::R
         "after the leading '/', thorough: <= 6, evaluated in batches of 14^3), all token strings of length <= 3 without the leading '/' "
         "(other request-target forms), a hand-written list of traversal spellings, a full-detail sample, random longer targets, random "
         "mutations, arbitrary bytes (mostly refused by http::Uri: out_of_domain); plus make_path, percent_decode on arbitrary text and "
-        "from_utf8 / from_utf8_lossy on byte strings around every UTF-8 boundary. (b) the real request pipeline "
-        "kvarn::handle_connection over a loopback TCP pair against a fixture tree with sentinel files inside and outside public/. "
-        "distinct_nontrivial counts distinct (component, input, model outcome class) triples; batch cases count once each, their targets "
-        "are reported as targets_in_batches")
+        "from_utf8 / from_utf8_lossy on byte strings around every UTF-8 boundary. (b) the real request pipeline, in process: a kvarn Host "
+        "over a fixture tree written to disk (files inside the public directory incl. sub-directories, index.html, *.html, names like "
+        "'%2e%2e' and '..\\secret.txt'; SENTINEL files named index.html / *.html / secret.txt / ... in every directory from the run "
+        "directory down to the parent of the public directory and in a sibling of it), with Extensions::new() (uri_redirect and CORS Prime "
+        "extensions) or Extensions::empty(), public_data_dir in {default, pub, www/pub}, response cache on/off, file cache on/off, four "
+        "path-bound Prepare handlers and a predicate-bound Prepare whose predicate logs that it was consulted; histories of 10-30 requests "
+        "(GET/HEAD/POST/OPTIONS, no / same-site / foreign Origin header, with or without access-control-request-method) and of steps that "
+        "copy a response-cache entry to an arbitrary key go through the public kvarn::handle_cache; per request status, content-decoded "
+        "body and the Prepare log are compared with PathSan.serve run over the same tree with the cache threaded through "
+        "(Model/PathSanPipe.v run_history, correspondence) and checked by three oracles that do not use the model: no body contains a "
+        "sentinel; status is 400 exactly when the Coq specification unsafe_b(percent_decode path) holds and then the body is the error "
+        "page and no Prepare was consulted; 403/204/'CORS request denied' never answer a request for which no CORS Prime applies. "
+        "Pipeline targets: the hand-written list under every (extensions x cache) combination and with random methods/Origin kinds, all "
+        "token strings of length <= 3 (quick) / <= 4 (thorough) with and without default extensions and of length 5 with them (thorough), traversal spellings (single, double "
+        "and triple encodings, backslashes, overlong forms) x prefixes x leaves that the default folder/extension expansion turns into "
+        "sentinel names, token strings ending in '/', '.', their single and double encodings, mixed histories with repeated targets, "
+        "poisoned-cache histories. (c) a part of the same scenarios (the hand-written list under the four extensions x cache combinations, "
+        "mixed / traversal / poisoned-cache histories) through the front door: the requests are written as HTTP/1.1 text over a loopback "
+        "TCP connection to a real kvarn server started with RunConfig::execute on the fixture host (request parsing, host selection, "
+        "handle_cache, SendKind::send), compared with the same model (a HEAD answer has no body; a request the server answers by closing "
+        "the connection counts as refused) and checked by the same oracles. distinct_nontrivial counts distinct (component, input, model outcome class) triples; batch cases count "
+        "once each, their targets are reported as targets_in_batches, pipeline requests as pipeline_requests")
 ASSUMPTIONS = [
-    "no symbolic links below or at the public directory and a case-sensitive POSIX file system (the tree model of theorems 1b/1c)",
+    "no symbolic links below or at the public directory and a case-sensitive POSIX file system (the tree model of theorems 1b/1c/6)",
     "Unix: Path::is_relative() is 'does not start with /' (the model and the harness run on Linux)",
     "the operator's options extension_default / folder_default are benign (their percent-decoding contains no './' and does not start "
-    "with '/'; true for the defaults 'html' and 'index.html', proved as benign_defaults) — hypothesis of theorems 1c and 3b",
-    "theorems 1c/3b speak about the built-in Prime extension 'Expand . and /' and about Prime extensions returning a /./ override; "
-    "other operator-written Prime/Prepare extensions that build their own paths are outside the property",
-    "http::Uri acceptance is modelled for origin-form targets, '*' and bare reg-names; other forms are out of domain of the correspondence",
-    "the response cache is represented by the entry found for the request key (its filling is C03/C04's subject); theorem 2b shows it is "
-    "bypassed for unsafe paths",
+    "with '/'; true for the defaults 'html' and 'index.html', proved as benign_defaults) — hypothesis of theorems 1c, 3b, 6 and 8",
+    "theorems 1c/3b/6/8 speak about the built-in Prime extensions ('Expand . and /', the two CORS reroutes of Extensions::new) and about "
+    "Prime extensions returning a /./ override; other operator-written Prime/Prepare/Present extensions that build their own paths "
+    "are outside the property (the fixture's Prepare handlers return fixed bodies)",
+    "http::Uri acceptance is modelled for origin-form targets, '*' and bare reg-names; other forms are out of domain of the correspondence; "
+    "the pipeline component takes origin-form targets only and builds the request as c00pipe does (absolute URI http://localhost<target>)",
+    "the response cache is a finite map with read-your-writes (moka; 1024 entries are never reached in a history); its key/fill rules are "
+    "modelled as far as C01 needs them (path only: the fixture never uses ServerCachePreference::QueryMatters; no If-Modified-Since, no "
+    "Vary rules — C03/C04's subject); theorems 2b/7 show it is bypassed for unsafe paths whatever it contains",
+    "error::default reads <host.path>/errors/<status>.html by design; the fixture has no such files",
+    "sequential histories (one request at a time); HTTP/1.1 without TLS on the loopback variant (HTTP/2, HTTP/3 and TLS front ends build the "
+    "same http::Request and call the same handle_cache, but are not driven here)",
 ]
 TRUSTED = ["modelled: utils/src/parse.rs sanitize_request (path part), parse::uri; utils/src/lib.rs percent_decode, make_path; src/lib.rs "
-           "handle_cache / get_response / handle_request as far as sanitize result, path construction, Prepare lookup and read_file are "
-           "concerned; src/extensions.rs resolve_prime (uri_redirect), resolve_prepare; percent_encoding::percent_decode, "
-           "core::str::from_utf8 and String::from_utf8_lossy are transcribed and compared with the real functions on every run"]
+           "handle_cache / get_response / handle_request / maybe_cache as far as sanitize result, cache key and filling, path "
+           "construction, Prepare lookup and read_file are concerned; src/extensions.rs resolve_prime (uri_redirect), resolve_prepare; "
+           "src/cors.rs with_disallow_cors (when the two Prime extensions reroute, what the two internal handlers answer); "
+           "src/host.rs default_status_code_cache_filter; percent_encoding::percent_decode, core::str::from_utf8 and "
+           "String::from_utf8_lossy are transcribed and compared with the real functions on every run",
+           "the pipeline harness harness/src/c01pipe.rs + c00pipe.rs (fixture on disk under .run/<pid>-<n>/, request construction, "
+           "canonicalisation of kvarn's HTML error pages to 'ERRPAGE', content-decoding of bodies; for the loopback variant a minimal HTTP/1.1 "
+           "client: one request at a time, responses framed by content-length, 8 s read timeouts, port chosen by the kernel) and the Python oracles in "
+           "driver/props/c01.py (sentinel search, status-400 rule against the Coq spec component pathsanpipe.spec, CORS rule)"]
 EXHAUSTIVE = False
 KERNEL_SAMPLE = 40
 
@@ -94,6 +134,16 @@ DIRECTED = [
     b"/[", b"/]", b"/\\", b"/\x7f", b"/\x00", b"", b"/a/./b", b"/a/.", b"/a/..", b"/a/b/..", b"/a/b/../", b"/a./b", b"/a/b.", b"/a/b..",
     b"/.html", b"/..html", b"/a/.hidden", b"/a/..hidden", b"/..%2e", b"/%2e%2e%2e", b"/%2e%2e.", b"/.%2e.", b"/a/%2e%2e", b"/a/%2e",
     b"/cors_fail", b"/./", b"/.//", b"/%2e/", b"/%2e%2f", b"/%2E%2F", b"/%2e%2F%2e%2E%2f", b"/a/%2e%2e/%2e%2e/%2e%2e/secret.txt",
+    # spellings that only become a traversal when something after the check decodes once more, maps separators, or expands the
+    # trailing '/' or '.' (the redirect Prime runs after sanitize_request)
+    b"/%252e%252e/", b"/%252e%252e/index.html", b"/%252e%252e%252f", b"/%252e%252e/secret.", b"/%252e%252e%252fsecret.", b"/a/%252e%252e/%252e%252e/",
+    b"/%252e%252e/%252e%252e/", b"/%252e%252e/%252e%252e/outside.txt", b"/..%5c", b"/..%5c/", b"/..%5csecret.", b"/..\\", b"/a/..%5c..%5csecret.txt",
+    b"/%2e%2e%5csecret.txt", b"/..%255csecret.txt", b"/..%255c", b"/%252e%252e%255csecret.txt", b"/%252e/", b"/%252e%252f", b"/a%252f", b"/a%2f", b"/a%2e",
+    b"/secret%2e", b"/secret%252e", b"/a/%2e", b"/%2e%2e", b"/..", b"/../", b"/...", b"/.../", b"/..;/secret.txt", b"/;/../secret.txt",
+    b"/%2e%2e;/secret.txt", b"/a/..;/..;/secret.txt", b"/.%00./secret.txt", b"/%u002e%u002e/secret.txt", b"/%%32e%%32e/secret.txt",
+    # encoded spellings of the fixture's path-bound handlers (/h, /h/index.html, /a/a.html, /aa.html): the Prepare table is keyed by the RAW path
+    b"/h", b"/%68", b"/h/", b"/%68/", b"/h%2f", b"/h/index.html", b"/h/index%2ehtml", b"/a/a.html", b"/a/a%2ehtml", b"/a/a.", b"/a/%61.", b"/%61a.",
+    b"/aa.", b"/aa.html", b"/%61%61.html", b"/h?x", b"/%68?x", b"/H",
 ]
 
 
@@ -162,8 +212,322 @@ def rand_text(rng):
     return "".join(rng.choice(al) for _ in range(rng.randrange(0, 8))).encode()
 
 
+# ------------------------------------------------------------------------------------------------
+# pipeline part: the real kvarn::handle_cache on a Host over a fixture tree on disk (harness/src/c01pipe.rs)
+# against PathSan.serve over the same tree (Model/PathSanPipe.v), plus model-independent oracles
+# ------------------------------------------------------------------------------------------------
+SENTINEL = b"SENTINEL"
+PUBLIC_DIRS = [b"public", b"pub", b"www/pub"]
+# names chosen so that token strings, the default folder_default / extension_default expansion and single / double
+# decodings hit them: a real file may be called "%2e%2e" or "..\secret.txt"
+INSIDE = [b"index.html", b"a.html", b"secret.txt", b"secret.html", b"aa", b"a.a", b"%", b"\\", "é".encode(), "aé".encode(),
+          b"a/index.html", b"a/a", b"a/a.html", b"a/b.txt", "a/é".encode(), b"a/aa/index.html", b"a/aa/a", b"a\\a", b"..\\secret.txt",
+          b"%2e", b"%2f", b"%2e%2e/index.html", b"%2e%2e/secret.txt", b"%2e%2e/a", b"%2e%2e%2fsecret.txt", b".a/a", b"..a", b"a..",
+          b"sub/index.html", b"sub/secret.html", b"sub/%2e%2e/index.html"]
+OUTSIDE_NAMES = [b"index.html", b"secret.txt", b"secret.html", b"a.html", b"aa", b"a.a", b"%", "é".encode(), b"outside.txt", b"html",
+                 b"private/index.html", b"private/a", b"private/secret.txt"]
+HANDLERS = [(b"/h", b"HANDLER-h", 2), (b"/a/a.html", b"HANDLER-a-a-html", 0), (b"/h/index.html", b"HANDLER-h-index", 2),
+            (b"/aa.html", b"HANDLER-aa-html", 2)]
+METHODS = [b"GET", b"HEAD", b"POST", b"OPTIONS"]
+INTERNAL_STATUS = (403, 204)
+PIPE_COMPS = ("pathsanpipe.run", "pathsanpipe.wire")
+ALIAS = "alias"   # pseudo method of a history step (ALIAS, from, to): copy the response-cache entry under `from` to the key `to`
+UNSAFE_TARGETS = [b"/../secret.txt", b"/./cors_fail", b"/./cors_options", b"//etc/passwd", b"/%2e%2e/secret.txt", b"/a/../index.html", b"/../",
+                  b"/..%2fsecret.txt", b"/%2e/cors_fail", b"/a/./a", b"/../secret.", b"/.%2e/index.html", b"//", b"/%2f", b"/../../outside.txt",
+                  b"/%2e%2e%2f", b"/./", b"/sub/../../secret.html"]
+CORS_DENIED = b"CORS request denied"
+
+
+def fixture_files(public):
+    files = []
+    base = b"host/" + public + b"/"
+    for n in INSIDE:
+        files.append((base + n, b"PUB:" + n))
+    # every directory from the run directory down to the parent of the public directory gets sentinel files
+    levels = [b"", b"host/"]
+    parts = public.split(b"/")
+    for i in range(1, len(parts)):
+        levels.append(b"host/" + b"/".join(parts[:i]) + b"/")
+    for lv in levels:
+        for n in OUTSIDE_NAMES:
+            files.append((lv + n, SENTINEL + b":" + lv + n))
+    return files
+
+
+_FIX = {}
+
+
+def pipe_cfg(default_ext, cache, fcache, public):
+    key = (default_ext, cache, fcache, public)
+    if key not in _FIX:
+        _FIX[key] = xl(xbool(default_ext), xbool(cache), xbool(fcache), xb(public),
+                       xlist([xl(xb(a), xb(b)) for a, b in fixture_files(public)]),
+                       xlist([xl(xb(a), xb(b), xn(s)) for a, b, s in HANDLERS]))
+    return _FIX[key]
+
+
+def pipe_case(cfgkey, reqs, kind, wire=False):
+    ops = [xl(xn(1), xb(t), xb(k)) if m is ALIAS else xl(xb(m), xb(t), xn(k)) for m, t, k in reqs]
+    return Case("pathsanpipe.wire" if wire else "pathsanpipe.run", xl(pipe_cfg(*cfgkey), xlist(ops)), "pathsanpipe.wire_spec" if wire else "pathsanpipe.spec",
+                {"kind": kind, "requests": sum(1 for r in reqs if r[0] is not ALIAS), "cfg": cfgkey})
+
+
+DOTDOT = [b"..", b"%2e%2e", b"%2E%2e", b".%2e", b"%2e.", b"%252e%252e", b"%252E%252E", b".%252e", b"%25252e%25252e", b"%c0%ae%c0%ae", b"..%00", b"...", b"."]
+SEP = [b"/", b"/", b"%2f", b"%2F", b"%5c", b"%5C", b"\\", b"%252f", b"%255c", b"%c0%af", b"//", b"/./", b"%00/"]
+LEAF = [b"secret.txt", b"index.html", b"", b"secret.", b"secret.html", b"outside.txt", b"a.html", b"a.", b"aa", b"private/", b"private/a", b"%",
+        b"host/secret.txt", b"public/index.html", b"html", b".", b"%2e", b"%2f", b"%252e", b"%252f"]
+PREFIX = [b"", b"", b"a/", b"sub/", b"%2e%2e/", b"a/aa/", b"nonexistent/", b"%252e%252e/", b"a%2f", b"sub%5c"]
+PTOKENS = TOKENS + [b"%252e", b"%252f", b"%255c", b"%5C", b"\\", b"%252E", b"%2e%2e", b"%25", b"secret.txt", b"secret", b"index.html", b"html", b"sub",
+                    b"private", b"host", b"public", b"aa", b"h", b"a.html", b"index", b"?", b"?a"]
+ENDINGS = [b"/", b".", b"%2e", b"%2f", b"%252e", b"%252f", b"/.", b"./", b"..", b"%2e/", b"/%2e", b"%5c", b"\\"]
+
+
+def climb_target(rng):
+    t = b"/" + rng.choice(PREFIX)
+    for _ in range(rng.randrange(1, 4)):
+        t += rng.choice(DOTDOT) + rng.choice(SEP)
+    return t + rng.choice(LEAF)
+
+
+def token_target(rng, ending=False):
+    t = b"/" + b"".join(rng.choice(PTOKENS) for _ in range(rng.randrange(0, 7)))
+    if ending:
+        t += rng.choice(ENDINGS)
+    return t
+
+
+def pipe_target(rng):
+    r = rng.random()
+    if r < 0.3:
+        return climb_target(rng)
+    if r < 0.5:
+        return token_target(rng, True)
+    if r < 0.65:
+        return token_target(rng)
+    if r < 0.8:
+        return rng.choice([b"/", b"/index.html", b"/a/", b"/a/index.html", b"/a.", b"/a.html", b"/secret.txt", b"/secret.", b"/aa", b"/aa.", b"/h", b"/h/",
+                           b"/a/a.", b"/a/a.html", b"/a/a", b"/sub/", b"/%252e%252e/", b"/%252e%252e/index.html", b"/%2e%2e/", b"/..%5csecret.txt",
+                           "/é".encode(), b"/%c3%a9", b"/%25", b"/%5c", b"/a%5ca", b"/nonexistent", b"/a", b"/sub", b"/%2e", b"/.a/a", b"/..a", b"/a.."])
+    if r < 0.9:
+        return rng.choice([t for t in DIRECTED if t.startswith(b"/")])
+    return rand_target(rng)
+
+
+def rand_cfgkey(rng):
+    return (rng.random() < 0.65, rng.random() < 0.6, rng.random() < 0.5, rng.choice(PUBLIC_DIRS))
+
+
+def history(rng, n):
+    """n requests; targets are repeated (other method, other Origin kind, equivalent spelling) so that the cache is exercised"""
+    reqs = []
+    while len(reqs) < n:
+        if reqs and rng.random() < 0.3:
+            m, t, k = rng.choice(reqs)
+            v = rng.random()
+            if v < 0.5:
+                pass
+            elif v < 0.7 and t.endswith(b"/"):
+                t = t + b"index.html"
+            elif v < 0.8 and t.endswith(b"."):
+                t = t + b"html"
+            elif v < 0.9:
+                t = t + rng.choice(ENDINGS)
+            reqs.append((rng.choice(METHODS) if rng.random() < 0.5 else b"GET", t, rng.choice([0, 0, 0, 1, 2, 3, 4])))
+            continue
+        m = b"GET" if rng.random() < 0.6 else rng.choice(METHODS)
+        k = 0 if rng.random() < 0.7 else rng.randrange(5)
+        reqs.append((m, pipe_target(rng), k))
+    return reqs
+
+
+def primed_key(t, default_ext):
+    p = t.split(b"#")[0].split(b"?")[0]
+    if default_ext and p.endswith(b"."):
+        return p + b"html"
+    if default_ext and p.endswith(b"/"):
+        return p + b"index.html"
+    return p
+
+
+def poisoned_history(rng, default_ext):
+    """cache entries of harmless responses are copied to the keys unsafe requests (and the CORS overrides) look up"""
+    reqs = []
+    sources = [(b"/h", b"/h"), (b"/index.html", b"/index.html"), (b"/aa", b"/aa"), (b"/nonexistent", b"/nonexistent")]
+    if default_ext:
+        sources += [(b"/", b"/index.html"), (b"/a/", b"/a/index.html"), (b"/secret.", b"/secret.html")]
+    for _ in range(rng.randrange(3, 7)):
+        t, key = rng.choice(sources)
+        reqs.append((rng.choice([b"GET", b"GET", b"HEAD"]), t, 0))
+        u = rng.choice(UNSAFE_TARGETS) if rng.random() < 0.7 else pipe_target(rng)
+        to = rng.choice([primed_key(u, default_ext), primed_key(u, default_ext), u, b"/./cors_fail", b"/./cors_options", b"/zz"])
+        reqs.append((ALIAS, key, to))
+        for _ in range(rng.randrange(1, 4)):
+            reqs.append((rng.choice([b"GET", b"GET", b"HEAD", b"POST", b"OPTIONS"]), rng.choice([u, u, to, b"/zz"]), rng.choice([0, 0, 0, 2, 3, 4])))
+    return reqs
+
+
+# the history of Example ex_history in Properties/C01.v (evaluated there by the Coq kernel): run on the real code and on the
+# extracted model each time, and compared with the value the kernel computed — ties the extraction of PathSanPipe to the kernel
+EX_FILES = [(b"host/public/index.html", b"INDEX"), (b"host/public/a/b.txt", b"AB"), (b"host/secret.txt", b"SECRET"), (b"outside.txt", b"OUTSIDE")]
+EX_HISTORY = [(b"GET", b"/", 0), (b"GET", b"/index.html", 0), (b"GET", b"/../secret.txt", 0), (ALIAS, b"/index.html", b"/%2e%2e/secret.txt"),
+              (b"GET", b"/%2e%2e/secret.txt", 0), (b"GET", b"/%252e%252e/", 0), (b"GET", b"/a/b.txt", 2), (b"GET", b"/./cors_fail", 0)]
+EX_EXPECTED = ("(L (L (N 200) (B %s) (L (B 7066))) (L (N 200) (B %s) (L)) (L (N 400) (B %s) (L)) (L (N 1)) (L (N 400) (B %s) (L)) "
+               "(L (N 404) (B %s) (L (B 7066))) (L (N 403) (B %s) (L)) (L (N 400) (B %s) (L)))"
+               % (b"INDEX".hex(), b"INDEX".hex(), b"ERRPAGE".hex(), b"ERRPAGE".hex(), b"ERRPAGE".hex(), CORS_DENIED.hex(), b"ERRPAGE".hex()))
+
+
+def pinned_case():
+    cfg = xl(xbool(True), xbool(True), xbool(True), xb(b"public"), xlist([xl(xb(a), xb(b)) for a, b in EX_FILES]), xlist([]))
+    ops = [xl(xn(1), xb(t), xb(k)) if m is ALIAS else xl(xb(m), xb(t), xn(k)) for m, t, k in EX_HISTORY]
+    return Case("pathsanpipe.run", xl(cfg, xlist(ops)), "pathsanpipe.spec", {"kind": "pipe-kernel-pinned", "requests": 7, "pinned": EX_EXPECTED})
+
+
+def chunks(l, n):
+    return [l[i:i + n] for i in range(0, len(l), n)]
+
+
+def pipe_cases(rng, tier):
+    import itertools
+    cases = [pinned_case()]
+    directed = [t for t in DIRECTED if t.startswith(b"/")]
+    # 1. the hand-written list through every combination of default extensions / response cache, GET, no Origin header
+    for de in (True, False):
+        for ca in (True, False):
+            for pub in (PUBLIC_DIRS if tier == "thorough" else PUBLIC_DIRS[:1] if not de else PUBLIC_DIRS[::2]):
+                for ch in chunks(directed, 30):
+                    cases.append(pipe_case((de, ca, ca, pub), [(b"GET", t, 0) for t in ch], "pipe-directed"))
+    # 2. the hand-written list with methods and Origin kinds, each target twice in a row (second answer may come from the cache)
+    for rep in range(2 if tier == "quick" else 8):
+        rows = []
+        for t in directed:
+            m1, m2 = rng.choice(METHODS), rng.choice(METHODS)
+            rows += [(m1, t, rng.choice([0, 0, 1, 2, 3, 4])), (m2, t, rng.choice([0, 0, 1, 2, 3, 4]))]
+        for ch in chunks(rows, 30):
+            cases.append(pipe_case(rand_cfgkey(rng), ch, "pipe-directed-methods"))
+    # 3. bounded-exhaustive token strings through the pipeline
+    full = 3 if tier == "quick" else 5
+    for L in range(0, full + 1):
+        allt = [b"/" + b"".join(c) for c in itertools.product(TOKENS, repeat=L)]
+        for de in ((True, False) if L <= 4 else (True,)):
+            for ch in chunks(allt, 28):
+                cases.append(pipe_case((de, True, True, b"public"), [(b"GET", t, 0) for t in ch], "pipe-exhaustive"))
+    # 4. traversal spellings (single / double encodings, backslashes, overlong forms) x prefixes x leaves
+    n = 120 if tier == "quick" else 1500
+    for _ in range(n):
+        cases.append(pipe_case(rand_cfgkey(rng), [(b"GET" if rng.random() < 0.8 else rng.choice(METHODS), climb_target(rng), 0)
+                                                 for _ in range(25)], "pipe-climb"))
+    # 5. token strings with an ending that triggers (or nearly triggers) the redirect Prime
+    for _ in range(n):
+        cases.append(pipe_case((True, rng.random() < 0.5, rng.random() < 0.5, rng.choice(PUBLIC_DIRS)),
+                               [(b"GET", token_target(rng, True), 0) for _ in range(25)], "pipe-endings"))
+    # 6. mixed histories: repeated targets, methods, Origin kinds, all configurations
+    for _ in range(n):
+        cases.append(pipe_case(rand_cfgkey(rng), history(rng, rng.randrange(10, 31)), "pipe-history"))
+    # 7. arbitrary cache content: entries copied to the keys of unsafe requests / of the CORS overrides
+    for _ in range(n):
+        de = rng.random() < 0.6
+        cases.append(pipe_case((de, True, rng.random() < 0.5, rng.choice(PUBLIC_DIRS)), poisoned_history(rng, de), "pipe-poisoned-cache"))
+    # 8. the same through the front door: HTTP/1.1 text to a real kvarn server (RunConfig::execute) on a loopback port
+    for de in (True, False):
+        for ca in (True, False):
+            for ch in chunks(directed, 30):
+                cases.append(pipe_case((de, ca, ca, b"public"), [(b"GET", t, 0) for t in ch], "wire-directed", wire=True))
+    for _ in range(n // 4):
+        cases.append(pipe_case(rand_cfgkey(rng), history(rng, rng.randrange(10, 31)), "wire-history", wire=True))
+        cases.append(pipe_case(rand_cfgkey(rng), [(b"GET" if rng.random() < 0.8 else rng.choice(METHODS), climb_target(rng), 0) for _ in range(25)],
+                               "wire-climb", wire=True))
+        de = rng.random() < 0.6
+        cases.append(pipe_case((de, True, rng.random() < 0.5, rng.choice(PUBLIC_DIRS)), poisoned_history(rng, de), "wire-poisoned-cache", wire=True))
+    return cases
+
+
+def _pipe_rows(c, i):
+    iv = kv.xparse(i)
+    reqs = c.x[1][1][1]
+    if iv[0] != "L" or len(iv[1]) != len(reqs):
+        return None
+    return list(zip(reqs, iv[1]))
+
+
+def _req_text(c, idx, r):
+    de, ca, fc, pub = c.x[1][0][1][0][1], c.x[1][0][1][1][1], c.x[1][0][1][2][1], c.x[1][0][1][3][1]
+    return "request #%d %s %r origin_kind=%d (default_ext=%d cache=%d fcache=%d public_dir=%r)" % (
+        idx, r[1][0][1].decode(), r[1][1][1], r[1][2][1], de, ca, fc, pub)
+
+
+def pipe_spec_ok(c, i, s):
+    """(b): status 400 exactly when the percent-decoded path is unsafe (Coq spec component, independent of serve / sanitize_path); then
+    nothing but the error page comes back and no Prepare extension was consulted or run"""
+    rows = _pipe_rows(c, i)
+    sv = kv.xparse(s)
+    if rows is None or sv[0] != "L" or len(sv[1]) != len(rows):
+        c.meta["why"] = "malformed pipeline output"
+        return False
+    for idx, ((r, o), f) in enumerate(zip(rows, sv[1])):
+        if f == ("N", 97):
+            continue
+        if f == ("N", 96):
+            if o != ("L", [("N", 96)]):
+                c.meta["why"] = "a target refused by the specification's URI grammar was served: " + _req_text(c, idx, r)
+                return False
+            continue
+        if o[0] != "L" or len(o[1]) != 3:
+            c.meta["why"] = "no answer (panic / undecodable body): " + _req_text(c, idx, r) + " -> " + kv.pretty(o)
+            return False
+        status, body, log = o[1][0][1], o[1][1][1], o[1][2][1]
+        if (status == 400) != (f[1] == 1):
+            c.meta["why"] = ("unsafe path not rejected: " if f[1] == 1 else "safe path rejected with 400: ") + _req_text(c, idx, r) + \
+                " -> status %d body %r" % (status, body[:80])
+            return False
+        if status == 400 and ((body != b"ERRPAGE" and not (c.comp == "pathsanpipe.wire" and r[1][0][1] == b"HEAD" and body == b"")) or log):
+            c.meta["why"] = "400 but a Prepare extension was consulted or content returned: " + _req_text(c, idx, r) + " -> " + kv.pretty(o)
+            return False
+    return True
+
+
+_ALLOWED = {}
+
+
+def _allowed_bodies(c):
+    """contents of the fixture's files below the public directory and the handlers' bodies, read off the case's own input"""
+    cfg = c.x[1][0][1]
+    k = id(cfg)
+    if k not in _ALLOWED:
+        pre = b"host/" + cfg[3][1] + b"/"
+        _ALLOWED[k] = (cfg, {f[1][1][1] for f in cfg[4][1] if f[1][0][1].startswith(pre)} | {h[1][1][1] for h in cfg[5][1]})
+    return _ALLOWED[k][1]
+
+
+def extra_oracle(c, i):
+    """model-independent: (a) no sentinel content from outside the public directory in any body; (c) the internal CORS handlers answer
+    only when a CORS Prime extension produced the override (never for a request without a foreign Origin / preflight headers)"""
+    if c.comp not in PIPE_COMPS:
+        return None
+    if "pinned" in c.meta and i != c.meta["pinned"]:
+        return "the real pipeline's answers differ from the value of Example ex_history computed by the Coq kernel: " + i
+    rows = _pipe_rows(c, i)
+    if rows is None:
+        return "malformed pipeline output " + i[:100]
+    default_ext = c.x[1][0][1][0][1] == 1
+    for idx, (r, o) in enumerate(rows):
+        if o[0] != "L" or len(o[1]) != 3 or r[1][0][0] == "N":
+            continue
+        status, body, log = o[1][0][1], o[1][1][1], o[1][2][1]
+        m, k = r[1][0][1], r[1][2][1]
+        if SENTINEL in body:
+            return "content of a file outside the public directory returned: " + _req_text(c, idx, r) + " -> status %d body %r" % (status, body[:80])
+        may_override = default_ext and (k in (2, 3) or (k == 4 and m == b"OPTIONS"))
+        if not may_override and (status in INTERNAL_STATUS or body == CORS_DENIED):
+            return "an internal /./cors_* handler answered a request no CORS Prime extension rerouted: " + _req_text(c, idx, r) + \
+                " -> status %d body %r" % (status, body[:80])
+        head_on_wire = c.comp == "pathsanpipe.wire" and m == b"HEAD" and body == b""
+        if status == 200 and body not in _allowed_bodies(c) and not head_on_wire:
+            return "200 with a body that is neither a public file's content nor a handler's: " + _req_text(c, idx, r) + " -> %r" % body[:80]
+    return None
+
+
 def generate(rng, tier):
-    cases = []
+    cases = pipe_cases(rng, tier)
     for t in DIRECTED:
         cases.append(direct(t, "directed"))
     # bounded-exhaustive over the token alphabet, origin form ("/" + tokens)
@@ -201,6 +565,8 @@ def generate(rng, tier):
 
 
 def spec_ok(c, i, s):
+    if c.comp in PIPE_COMPS:
+        return pipe_spec_ok(c, i, s)
     if c.comp == "pathsan.batch":
         return i == s
     # direct: implementation (path, decoded, sanitize, utf8 decoding, fs path) against (must be accepted?, must decode?)
@@ -215,6 +581,8 @@ def spec_ok(c, i, s):
 
 
 def signature(c, m):
+    if c.comp in PIPE_COMPS:
+        return "pipe"
     if c.comp == "pathsan.direct":
         v = kv.xparse(m)
         if len(v[1]) != 5:
@@ -226,17 +594,28 @@ def signature(c, m):
 
 
 LEVEL_TEXT = ("Machine-checked Coq theorems, for ALL byte strings, over a byte-level model of percent_decode / sanitize_request / make_path / "
-              "the pipeline short-circuit: an accepted path walks only downwards from the public directory until its last segment and a "
-              "returned file content always comes from inside the public directory of an arbitrary file tree (POSIX resolution without "
-              "symlinks); exactly the paths whose percent-decoded bytes contain './', are not rooted or start with '//' are rejected, "
+              "the pipeline from handle_cache to read_file: an accepted path walks only downwards from the public directory until its last "
+              "segment and a returned file content always comes from inside the public directory of an arbitrary file tree (POSIX resolution "
+              "without symlinks); exactly the paths whose percent-decoded bytes contain './', are not rooted or start with '//' are rejected, "
               "answered 400 without cache, Prepare or file read; no accepted path (raw or decoded) contains './', so the internal /./ routes "
-              "are reachable only through a Prime result; check and use decode once and identically. The model is tied to /repo on every "
-              "run by a differential run of the real functions and of the real request pipeline against the extracted model.")
+              "are reachable only through a Prime result; check and use decode once and identically. Lifted to ALL histories of requests "
+              "with the response cache threaded through (induction with a cache invariant): every body ever answered, computed or cached, "
+              "is generated, a handler's, or a public file's content; an unsafe request is answered 400 in every cache state and leaves the "
+              "cache alone; without a CORS override a request is answered as if the internal routes did not exist. The model is tied to "
+              "/repo on every run by a differential run of the real functions AND of the real kvarn::handle_cache (default and empty "
+              "extensions, cache on/off, fixture tree with sentinel files on disk) against the extracted model, plus three oracles on the "
+              "real answers that do not go through the model.")
 LEVEL_NOTE = ("Trusted: Coq kernel, extraction (ExtrOcamlBasic) reduced by an in-kernel recheck sample, the hand transcription of the Rust "
-              "code into Model/PathSan.v as validated by the differential run, the POSIX path-resolution model (no symlinks). No axioms. "
-              "One defect repaired on the way (sanitize tested the undecoded text when the decoding was not UTF-8).")
-TECHNIQUE = "Coq proof (model satisfies spec for all inputs) + differential correspondence model vs. implementation (direct calls and loopback pipeline)"
+              "code into Model/PathSan.v + Model/PathSanPipe.v as validated by the differential runs, the POSIX path-resolution model (no "
+              "symlinks), the pipeline harness. No axioms. One defect repaired on the way (sanitize tested the undecoded text when the "
+              "decoding was not UTF-8).")
+TECHNIQUE = ("Coq proof (model satisfies spec for all inputs and all histories) + differential correspondence model vs. implementation "
+             "(direct calls, the in-process pipeline kvarn::handle_cache on a fixture tree, and a real server over loopback HTTP/1.1) + "
+             "model-independent oracles on the pipeline answers")
 
 
 def extra_coverage(cases, impl, model, spec):
-    return {"targets_in_batches": sum(c.meta.get("targets", 0) for c in cases if c.comp == "pathsan.batch")}
+    pc = [c for c in cases if c.comp in PIPE_COMPS]
+    return {"targets_in_batches": sum(c.meta.get("targets", 0) for c in cases if c.comp == "pathsan.batch"),
+            "pipeline_histories": len(pc), "pipeline_requests": sum(c.meta.get("requests", 0) for c in pc),
+            "of_which_over_loopback_http1": sum(c.meta.get("requests", 0) for c in pc if c.comp == "pathsanpipe.wire")}
